@@ -322,7 +322,8 @@ def _compute_multi_axis_multi_mask(coords, indices, adv_idx, adv_idx_pos):  # pr
     # Get location of non-advanced indices
     if len(indices) != 0:
         ixx = 0
-        for ix in range(coords.shape[0]):
+        # trailing full slices are pruned from `indices`: full_idx can have fewer rows than the array has axes
+        for ix in range(full_idx.shape[0]):
             isin = False
             for ax in adv_idx_pos:
                 if ix == ax:
